@@ -63,3 +63,20 @@ Print Assumptions C19_constant_responders.
 Print Assumptions C19_rpc_endpoint_free.
 Print Assumptions C19_stun_shape.
 Print Assumptions C19_dns_prefix.
+
+(* Frame level: two UDP datagrams in scope that carry the same payload -- whatever their MACs,
+   addresses, ports, IP version, the configurations and the histories -- are answered with
+   renderings of ONE core. *)
+From MS Require Import L2 Spec.View Spec.RefDec Proofs.Lift.
+Theorem C19_frames_same_payload :
+  forall E clk cfg cfg' tb tb2 f f' v v' tb' tb2' r r' evs evs',
+    cfg_ok cfg = true -> cfg_ok cfg' = true -> bytes_ok f = true -> bytes_ok f' = true ->
+    view_udp cfg f = Some v -> view_udp cfg' f' = Some v' ->
+    skipn 8 (v_l4 v) = skipn 8 (v_l4 v') ->
+    reply E cfg clk tb f = Ok (tb', r, evs) ->
+    reply E cfg' clk tb2 f' = Ok (tb2', r', evs') ->
+    exists c, udp_core E clk (skipn 8 (v_l4 v)) = Ok c /\
+              udp_resp r = Some (render c (udp_ci f v)) /\
+              udp_resp r' = Some (render c (udp_ci f' v')).
+Proof. exact frames_same_payload. Qed.
+Print Assumptions C19_frames_same_payload.
